@@ -81,6 +81,10 @@ theorem c11_step (hc : CfgOK c) (hw : WFW c cu w) (op : Op) (ha : ArgsOK c w op)
   | insertItIl p il => exact c11_insertItIl hc hw p il hd
   | itDeref k => exact c11_itDeref hc hw k hd
   | itDist => exact c11_itDist hc hw
+  | itWalk rev p ms => simp [inDomain] at hd
+  | itWalkDeref rev p ms => simp [inDomain] at hd
+  | itWalkIdx rev p ms k => simp [inDomain] at hd
+  | itRel rev r a b => simp [inDomain] at hd
   | iterCFwd => exact c11_iterCFwd hc hw
   | iterCRev => exact c11_iterCRev hc hw
   | iterFwd => exact c11_iterFwd hc hw
